@@ -587,6 +587,25 @@ def run_shard(spec_, res):
     from .. import hostile
     hostile.run(res, "quick", seed=spec_["shard"])
     from rv.modules import MODULE_CLASSES
+    # an application module type of its own, whose controllers are declared with bounds the library's controllers use too; the
+    # application then WIDENS ITS OWN ranges in place.  The library's controllers keep refusing what is outside THEIR ranges.
+    try:
+        from rv import controller as _rvc
+        from rv.modules import Behavior as _B, Module as _Module
+        _orig = dict(MODULE_CLASSES)
+        ns = {"name": "AppType", "mtype": "RvmonAppType", "mgroup": "Effect", "flags": 0x51, "default_flags": 0x51, "behaviors": {_B.receives_audio, _B.sends_audio}}
+        bounds = sorted({(c.min, c.max) for t_ in spec.load().values() for c in t_.controllers if c.kind in ("range", "compact", "no_offset")})
+        for j, b in enumerate(bounds):
+            ns[f"own_{j}"] = _rvc.Controller(b, b[0])
+        AppType = type("AppType", (_Module,), ns)
+        for j in range(len(bounds)):
+            vt = AppType.controllers[f"own_{j}"].value_type
+            vt.max, vt.min = 10 ** 7, -10 ** 7
+        MODULE_CLASSES.clear()
+        MODULE_CLASSES.update(_orig)
+        res.count("application_ranges_widened_in_place", len(bounds))
+    except Exception as e:
+        res.count("application_type_refused")
     for T in spec_["types"]:
         run_type(res, T, rng, spec_["tier"])
         held_out_of_range(res, T, spec.load()[T], MODULE_CLASSES[spec.load()[T].mtype])
